@@ -1417,6 +1417,7 @@ struct ssl
     unsigned char largestRsn[6];                /* Needed for resends of CCS flight */
     unsigned char lastRsn[6];                   /* Last RSN received (for replay detection) */
     unsigned long dtlsBitmap;                   /* Record replay helper */
+    unsigned char dtlsWinEpoch[2];              /* Epoch the replay window state belongs to */
     int32 parsedCCS;                            /* Set between CCS parse and FINISHED parse */
     int32 msn;                                  /* Current Message Sequence Number to send */
     int32 resendMsn;                            /* Starting MSN to use for resends */
